@@ -262,6 +262,18 @@ def evaluate_batch(metric: Metric,
   return batch_stat.reduce()
 
 
+def _widen_labels(labels: jnp.ndarray) -> jnp.ndarray:
+  """Returns integer labels narrower than 32 bits as int32.
+
+  jax.nn.one_hot and indexed updates count classes in the dtype of the labels,
+  so e.g. uint8 labels with more than 256 classes would wrap around.
+  """
+  labels = jnp.asarray(labels)
+  if jnp.issubdtype(labels.dtype, jnp.integer) and labels.dtype.itemsize < 4:
+    return labels.astype(jnp.int32)
+  return labels
+
+
 def unreduced_cross_entropy_loss(targets: jnp.ndarray,
                                  preds: jnp.ndarray,
                                  is_sparse_targets: bool = True) -> jnp.ndarray:
@@ -270,7 +282,7 @@ def unreduced_cross_entropy_loss(targets: jnp.ndarray,
   if is_sparse_targets:
     # If targets is sparse, convert to one hot representation.
     num_classes = preds.shape[-1]
-    targets = jax.nn.one_hot(targets, num_classes)
+    targets = jax.nn.one_hot(_widen_labels(targets), num_classes)
   return -jnp.sum(targets * log_preds, axis=-1)
 
 
@@ -940,7 +952,9 @@ class PerDomainMetric(Metric):
   def evaluate_example(self, example: SingleExample,
                        prediction: SinglePrediction) -> Stat:
     domain_mask = jax.nn.one_hot(
-        example[self.domain_id_key], self.num_domains, dtype=jnp.bool_)
+        _widen_labels(example[self.domain_id_key]),
+        self.num_domains,
+        dtype=jnp.bool_)
 
     def where(a, b):
       return apply_mask(domain_mask, jnp.expand_dims(a, 0),
@@ -1016,7 +1030,7 @@ class ConfusionMatrix(Metric):
       ValueError: If the num_classes attribute is not equal to the number of
         output classes of the model.
     """
-    target = example[self.target_key]
+    target = _widen_labels(example[self.target_key])
     pred = prediction if self.pred_key is None else prediction[self.pred_key]
     if self.num_classes != len(pred):
       raise ValueError('Make sure num_classes is equal to the number of output '
